@@ -266,6 +266,7 @@ func checkC17(w *World, r *Report) {
 	c17ReadOnly(w, r, eff, mts, "WithConfig", "C17.2", "creating a rule-specific variant writes no memory owned by the prototype")
 	c17DecodeTarget(w, r, mts)
 	c17Complete(w, r, mts)
+	c17NoDefaultsInOverride(w, r, mts)
 	c17Factory(w, r)
 }
 
@@ -311,7 +312,7 @@ func c17ReadOnly(w *World, r *Report, eff *effState, mts []*types.Named, method,
 // c17DecodeTarget: the struct a rule-level override is decoded into must not be pre-populated with
 // slices / maps / pointers of the prototype: the decoder writes into them in place.
 func c17DecodeTarget(w *World, r *Report, mts []*types.Named) {
-	ri := r.Rule("C17.2b", 8, "the decode target of a rule-level override holds no reference to the prototype's memory")
+	ri := r.Rule("C17.2b", 6, "the decode target of a rule-level override holds no reference to the prototype's memory")
 	for _, t := range mts {
 		fn := w.Method(t, "WithConfig")
 		if fn == nil || fn.Blocks == nil {
@@ -320,7 +321,7 @@ func c17DecodeTarget(w *World, r *Report, mts []*types.Named) {
 		recv := fn.Params[0]
 		for _, c := range callsIn(fn) {
 			callee := c.Common().StaticCallee()
-			if callee == nil || !strings.HasPrefix(strings.ToLower(callee.Name()), "decode") {
+			if callee == nil || !isStructDecoderCall(w, c) {
 				continue
 			}
 			r.Analysed(w.FnName(fn))
@@ -395,7 +396,7 @@ func c17Complete(w *World, r *Report, mts []*types.Named) {
 						}
 					case *ssa.Call, *ssa.Extract:
 						c, _ := resultOfCall(v)
-						if c == nil || c.Common().StaticCallee() == nil || !strings.HasPrefix(strings.ToLower(c.Common().StaticCallee().Name()), "new") {
+						if c == nil || !isCtorOf(w, c.Common().StaticCallee(), t) {
 							okRet, msg = false, "returns the result of "+v.String()
 						}
 					default:
@@ -403,7 +404,7 @@ func c17Complete(w *World, r *Report, mts []*types.Named) {
 					}
 				case s.Kind == "call":
 					c, _ := resultOfCall(s.V)
-					if c == nil || c.Common().StaticCallee() == nil || !strings.HasPrefix(strings.ToLower(c.Common().StaticCallee().Name()), "new") {
+					if c == nil || !isCtorOf(w, c.Common().StaticCallee(), t) {
 						okRet, msg = false, "returns the result of a call that is not the type's constructor"
 					}
 				default:
@@ -422,7 +423,7 @@ func c17Complete(w *World, r *Report, mts []*types.Named) {
 			if fnPkgPath(g) != t.Obj().Pkg().Path() || g == fn || w.isMockFn(g) || g.Parent() != nil {
 				continue
 			}
-			if ls := ruleLiteralAllocs(g, t); len(ls) > 0 && strings.HasPrefix(strings.ToLower(g.Name()), "new") {
+			if ls := ruleLiteralAllocs(g, t); len(ls) > 0 && isCtorOf(w, g, t) {
 				ctor, ctorLit = g, ls[len(ls)-1]
 			}
 		}
@@ -680,4 +681,86 @@ func fieldFreshlySet(v ssa.Value, use ssa.Instruction) bool {
 		}
 	}
 	return false
+}
+
+// c17NoDefaultsInOverride (C17.3b): what a rule-level override leaves unset is inherited from the
+// prototype. A built-in default written into the decoded override before it is merged with the
+// prototype makes the setting look "given" and hides the prototype's configured value for every
+// rule that overrides something else. Decided per WithConfig: after the decode call, a field of the
+// decode target is stored to only with values taken from the prototype (a manual merge).
+func c17NoDefaultsInOverride(w *World, r *Report, mts []*types.Named) {
+	noDefaultsInOverride(w, r, mts, "C17.3b", 6, "a decoded rule-level override is not filled up with built-in defaults: after decoding, its fields are written only with values of the prototype")
+}
+
+func noDefaultsInOverride(w *World, r *Report, mts []*types.Named, id string, floor int, text string) {
+	ri := r.Rule(id, floor, text)
+	for _, t := range mts {
+		fn := w.Method(t, "WithConfig")
+		if fn == nil || fn.Blocks == nil {
+			continue
+		}
+		recv := fn.Params[0]
+		for _, c := range callsIn(fn) {
+			callee := c.Common().StaticCallee()
+			if callee == nil || !isStructDecoderCall(w, c) {
+				continue
+			}
+			r.Analysed(w.FnName(fn))
+			ok, msg := true, ""
+			pos := c.Pos()
+			for _, a := range c.Common().Args {
+				al, isAlloc := stripConv(a).(*ssa.Alloc)
+				if !isAlloc {
+					continue
+				}
+				eachInstr(fn, func(in ssa.Instruction) {
+					st, isSt := in.(*ssa.Store)
+					if !isSt || !reachableAfter(c, st) {
+						return
+					}
+					root, p := accessPath(st.Addr)
+					if root != ssa.Value(al) || len(p) == 0 {
+						return
+					}
+					if dependsOn(w, st.Val, func(v ssa.Value) bool { return v == ssa.Value(recv) }) {
+						return
+					}
+					ok, msg, pos = false, "the decoded override's "+strings.Join(p, ".")+" is filled with a value that does not come from the prototype: where the rule does not set it, the prototype's configured value is lost", st.Pos()
+				})
+			}
+			r.Ob(ri, w.FnName(fn)+"|override-not-prefilled", pos, ok, msg)
+		}
+	}
+}
+
+// isStructDecoderCall: a call that decodes a raw configuration map into a struct (the package's
+// decode helper: it takes a map[string]any and a pointer to the target).
+func isStructDecoderCall(w *World, c ssa.CallInstruction) bool {
+	callee := c.Common().StaticCallee()
+	if callee == nil || !w.inModule(callee) {
+		return false
+	}
+	hasMap, hasTarget := false, false
+	for _, a := range c.Common().Args {
+		sa := stripConv(a)
+		if _, isMap := sa.Type().Underlying().(*types.Map); isMap {
+			hasMap = true
+		}
+		if _, isAlloc := sa.(*ssa.Alloc); isAlloc {
+			hasTarget = true
+		}
+	}
+	return hasMap && hasTarget
+}
+
+// isCtorOf: g is a constructor of the mechanism type t - a package-level function (no receiver, not
+// a closure) of t's package that builds a t literal; whatever it is called.
+func isCtorOf(w *World, g *ssa.Function, t *types.Named) bool {
+	if g == nil || g.Blocks == nil || g.Parent() != nil || g.Signature.Recv() != nil || t.Obj().Pkg() == nil {
+		return false
+	}
+	if fnPkgPath(g) != t.Obj().Pkg().Path() {
+		return false
+	}
+	return len(ruleLiteralAllocs(g, t)) > 0
 }
